@@ -172,7 +172,9 @@ def _tokenize_line(command):
             raise SyntaxError("QASM: Incorrect bracket formatting")
         tokens = groups.group(1).split()
         tokens.append("(")
-        tokens += groups.group(2).split(",")
+        # "( )" is an empty parameter list, not one empty parameter
+        if groups.group(2).strip():
+            tokens += groups.group(2).split(",")
         tokens.append(")")
         tokens += groups.group(3).split(",")
         tokens = [token.strip() for token in tokens]
